@@ -194,9 +194,51 @@ class Version:
         return env.m_converters.UnionConverter((t.List[int],), handlers=handlers, constructor=lambda v, i: cls(v))
 
 
+class Timestamp:
+    """Union with a constructor that refuses what an EARLIER member made of the value, so that a LATER member has to take the value
+    as it was given (a naive datetime string is kept as text): the later member must see the input, not the earlier member's result."""
+    def __init__(self, value): self.value = value
+    def __eq__(self, o): return type(o) is Timestamp and o.value == self.value
+    def __hash__(self): return hash(('ts', self.value))
+    def __repr__(self): return f"Timestamp({self.value!r})"
+
+    @staticmethod
+    def _build(val, i):
+        if i == 0 and val.tzinfo is None:
+            raise ValueError("naive datetimes are not accepted as datetimes")
+        return Timestamp(val)
+
+    @classmethod
+    def _converter(cls, *args, handlers):
+        import datetime as _dt
+        return env.m_converters.UnionConverter((_dt.datetime, str), handlers=handlers, constructor=cls._build)
+
+
+class Amount:
+    """float first, then int, the constructor refusing inexact floats: 2**53 + 1 must arrive at the int member as an int."""
+    def __init__(self, v): self.v = v
+    def __eq__(self, o): return type(o) is Amount and type(o.v) is type(self.v) and o.v == self.v
+    def __hash__(self): return hash(('amt', self.v))
+    def __repr__(self): return f"Amount({self.v!r})"
+
+    @staticmethod
+    def _build(val, i):
+        if i == 0 and val != int(val):
+            raise ValueError("whole amounts only")
+        if i == 0 and abs(val) >= 2 ** 53:
+            raise ValueError("too big to be exact as a float")
+        return Amount(val)
+
+    @classmethod
+    def _converter(cls, *args, handlers):
+        return env.m_converters.UnionConverter((float, int), handlers=handlers, constructor=cls._build)
+
+
 def protocol_cases():
     out = []
     for d, T, vals in (('Port', Port, [80, '443', 70000, 'http', -1, None, 2.5, [80]]),
+                       ('Timestamp', Timestamp, ['2020-01-01T12:00:00', '2020-01-01T12:00:00+00:00', 'yesterday', 5, None, '2020-01-01']),
+                       ('Amount', Amount, [3, 2 ** 53 + 1, 2.5, 4.0, 'x', True, 10 ** 400, -(2 ** 60)]),
                        ('Version', Version, [[1, 2], [], ['x'], 'v1', None])):
         out.append((d, T, vals))
         out.append((f"List[{d}]", t.List[T], [[v] for v in vals] + [[vals[0], vals[2]]]))
